@@ -36,6 +36,10 @@ CHECKS = {
    text='Complete enumeration of the shipped configuration: every index entry and every loop/segment/element/composite/component node of every indexed map and both control maps (129k predicate evaluations) against predicates from the statement: loads; references resolve; usage/repeat/position/syntax-note well-formedness; sibling distinguishability; index-key uniqueness and lookup; path uniqueness; re-fetch by own path through both lookups; loaded tree mirrors the XML; map-directory copy loads to an equal tree. Node-level known findings (37, data defects that need the X12 dictionary or the implementation guides) are listed one by one in known_findings.json.',
    design_ref='3/C16', technique='exhaustive enumeration of the finite configuration against independent predicates (own XML reader as reference)',
    note='Trusted: vpx/mapmodel.py (own ElementTree reader of maps.xml, map files, dataele.xml, codes.xml). The check is exhaustive over the files present in /repo/pyx12/map at run time.'),
+ 'C15': dict(
+   text='Every element node (top-level and component) and composite node of every loadable map is validated against a catalogue of ~60-80 values spanning each constraint boundary of its own definition, under charset B and E and under every external-code exclusion configuration (~2.4M element_if.is_valid / composite_if.is_valid / segment_if.is_valid calls); the reported code set must equal the set an independent definition->codes function implies and the boolean must agree. Date/time-period elements are driven through the whole segment with each format qualifier.',
+   design_ref='3/C15', technique='enumeration of (map node x boundary-value catalogue x configuration) against an independent definition-to-error-codes oracle',
+   note='Trusted: expected_element()/catalogue() in vpx/props/c15.py, the C13 reference recognisers, vpx/mapmodel.py. With a control character only "6 reported, nothing outside the implied set" is required; the required-first-component-of-optional-composite corner is abstained from (counted).'),
 }
 for pid in CHECKS:
     ENGINES[0]['serves_properties'].append(pid)
